@@ -398,8 +398,8 @@ def run(ctx):
     res.extra = {"case_kinds": kinds, "stats": stats,
                  "monitor": "props/C13.py: line_spec / static_spec (independent Python statement of the documented "
                             "directives) + NUL inside the limit; ASan with an exact-size output buffer",
-                 "presupposes_fixes": ["fixes/C13-target-format-edges.patch", "fixes/C13-format-set-buffer.patch",
-                                       "fixes/C13-max-line-len-range.patch"]}
+                 "presupposes_fixes": ["fixes/C13-1-target-format-edges.patch", "fixes/C13-2-format-set-buffer.patch",
+                                       "fixes/C13-3-max-line-len-range.patch"]}
     res.assumptions = ["time-stamp texts (%t, %T), pid, host name and the tags text are oracles recorded from the run",
                        "the output buffer has exactly max_line_length bytes (callers allocate at least that)",
                        "cs_format / qb_do_extended (message expansion in lib/log.c) are not modelled: covered only by "
